@@ -1,5 +1,5 @@
 """./check C03 : translation validation driver (see pyvc/tv.py)"""
-import sys, os, json, time, random
+import sys, os, json, time, random, hashlib
 from concurrent.futures import ProcessPoolExecutor
 
 ROOT = os.path.dirname(os.path.dirname(os.path.abspath(__file__)))
@@ -54,11 +54,27 @@ def main(argv):
     n_obl, n_dis = len(solved), len(solved) - len(bad)
     violations, undecided = [], []
     crashes = [e for e in errors if e['error'].startswith('CRASH')]
+    # baseline: the library sources that determine both the generated code and the generic loop.  An obligation that the
+    # solvers leave `unknown` is a violation only if one of them changed since the baseline ("passed on the unchanged tree
+    # and now fails"); on an unchanged tree it is UNDECIDED (exit 2).  `sat` is always a violation.
+    from pyvc import extract as _ex
+    import glob as _glob
+    cur = {os.path.basename(f): hashlib.sha256(open(f, 'rb').read()).hexdigest()
+           for f in sorted(_glob.glob(os.path.join(_ex.REPO, 'bisturi', '*.py')))}
+    bpath = os.path.join(ROOT, 'baseline', pid + '.json')
+    base = json.load(open(bpath)) if os.path.exists(bpath) else {}
+    tree_changed = (not base) or any(cur.get(f) != h for f, h in base.get('files', {}).items()) or set(cur) != set(base.get('files', {}))
     for k, v in bad:
         r = meta[k]
         rec = dict(obligation=k, declaration=r['body'], options=r['options'], direction=r['direction'],
-                   solver_result=v[0], solver_output=v[3][:3000])
-        violations.append(rec)
+                   solver_result=v[0], solver_output=v[3][:3000], sources_changed_since_baseline=tree_changed)
+        if v[0] == 'sat' or tree_changed:
+            violations.append(rec)
+        else:
+            undecided.append(rec)
+    if '--rebaseline' in argv and not bad:
+        os.makedirs(os.path.join(ROOT, 'baseline'), exist_ok=True)
+        json.dump(dict(files=cur), open(bpath, 'w'), indent=1, sort_keys=True)
     os.makedirs(os.path.join(OUT, 'replays', pid), exist_ok=True)
     for old_f in os.listdir(os.path.join(OUT, 'replays', pid)):       # replay files of earlier runs are not evidence of this one
         if old_f.startswith('violation_'):
@@ -135,6 +151,7 @@ def main(argv):
                            'nothing is stored at or after the cursor when pack_impl starts (collisions are C11/C12)',
                            'on failure the exception class, the phase flag and the stack of (offset, name, class) entries are compared (the newest entry may name the run of fixed fields containing the failing field, with the offset where the run begins); the message text is not compared'],
               wall_s=round(time.time() - t0, 1), violations=len(violations))
+    ev['coverage']['undecided'] = [u['obligation'] for u in undecided]
     os.makedirs(os.path.join(OUT, 'evidence'), exist_ok=True)
     json.dump(ev, open(os.path.join(OUT, 'evidence', pid + '.json'), 'w'), indent=1)
     if crashes:
@@ -145,9 +162,11 @@ def main(argv):
         for l in lines:
             print(l)
         return 1
-    if errors:
+    if errors or undecided:
         for e in errors[:5]:
             print('UNDECIDED property=C03 declaration=%s %s' % (e['body'], e['error'][:200]))
+        for u in undecided[:20]:
+            print('UNDECIDED property=C03 obligation=%s solver=%s (library sources unchanged since the baseline)' % (u['obligation'].replace(' ', '_'), u['solver_result']))
         return 2
     print('OK property=C03 programs=%d equivalence-obligations=%d discharged=%d wall=%.1fs' % (programs, n_obl, n_dis, time.time() - t0))
     return 0
